@@ -21,6 +21,7 @@ import ast
 
 from ..engine.model import AnalysisError, src, walk_own
 from ..engine.flow import Flow
+from ..engine.inline import Inliner, norm_text, resolved_in_block
 from ..engine.typestate import FactDomain, EventDomain, names_in
 
 MOD = 'basic_robotics.path_planning.pathplanner'
@@ -64,6 +65,11 @@ class Growth:
         for n in ast.walk(self.loop):
             if isinstance(n, ast.Assign) and len(n.targets) == 1 and isinstance(n.targets[0], ast.Name):
                 self.assigns.setdefault(n.targets[0].id, []).append(n.value)
+        self.il = Inliner(fi)
+
+    def atext(self, e):
+        """argument text with single-definition temporaries inlined (names kept)"""
+        return self.il.text(e, canon=False)
 
     def is_place(self, call):
         f = call.func
@@ -73,6 +79,7 @@ class Growth:
         """expr == dist(new.getPosition(), X.getPosition()) + X.getCost()  ->  src(X) or None."""
         if isinstance(expr, ast.Name) and expr.id in self.assigns and len(self.assigns[expr.id]) == 1:
             expr = self.assigns[expr.id][0]
+        expr = self.il.expand(expr)
         if not (isinstance(expr, ast.BinOp) and isinstance(expr.op, ast.Add)):
             return None
         for d, c in ((expr.left, expr.right), (expr.right, expr.left)):
@@ -208,7 +215,7 @@ class GrowthDomain(FactDomain):
                     ok = False
                     why = 'no distance variable with live range facts'
                     for d in dvars:
-                        defs_ok = all({src(a) for a in v.args} == {g.new + '.getPosition()', X + '.getPosition()'} for v in g.assigns[d])
+                        defs_ok = all({g.atext(a) for a in v.args} == {g.new + '.getPosition()', X.replace(' ', '') + '.getPosition()'} for v in g.assigns[d])
                         le_max = any(fct[0] is False and fct[1].replace(' ', '').startswith(d + '>') for fct in facts) or \
                             any(fct[0] is True and fct[1].replace(' ', '').startswith(d + '<=') for fct in facts)
                         ge_min = any(fct[0] is False and fct[1].replace(' ', '').startswith(d + '<') and not fct[1].replace(' ', '').startswith(d + '<=') for fct in facts) or \
@@ -399,7 +406,8 @@ class Checker:
                    'start node is %s' % (src(start[-1].value) if start else 'undefined'), line=w.lineno)
             ins = [c for s in w.body for c in ast.walk(s) if isinstance(c, ast.Call) and isinstance(c.func, ast.Attribute) and c.func.attr in ('insert', 'append')]
             lst = src(ins[0].func.value) if ins else None
-            ok = len(ins) == 1 and ins[0].func.attr == 'insert' and src(ins[0].args[0]) == '0' and src(ins[0].args[1]) == cur + '.getPosition()'
+            ok = len(ins) == 1 and ins[0].func.attr == 'insert' and len(ins[0].args) == 2 and norm_text(resolved_in_block(w.body, ins[0].args[0])) == '0' \
+                and norm_text(resolved_in_block(w.body, ins[0].args[1])) == cur + '.getPosition()'
             rep.ob('R16.6', fi, 'prepend current position', ok, 'loop body does not prepend exactly the current node\'s position once', line=w.lineno)
             adv = [s for s in w.body if isinstance(s, ast.Assign) and src(s.targets[0]) == cur]
             ok = len(adv) == 1 and src(adv[0].value) == cur + '.getParent()' and (not ins or adv[0].lineno > ins[0].lineno)
